@@ -168,7 +168,9 @@ static std::string do_E(const std::vector<std::string>& f, double den) {
       st.resize(st.size() - n);
       std::vector<Persistence_landscape*> ptrs;
       for (auto& a : args) ptrs.push_back(&a);
-      Persistence_landscape r; r.compute_average(ptrs); st.push_back(r);
+      // in half of the cases (a function of the arguments) the receiving object is itself one of the arguments: a running mean
+      if (n >= 2 && (args.front().size() + args.back().size()) % 2 == 0) { args.back().compute_average(ptrs); st.push_back(args.back()); }
+      else { Persistence_landscape r; r.compute_average(ptrs); st.push_back(r); }
     } else return "BADPROG";
   }
   Persistence_landscape r = st.back();
